@@ -148,7 +148,7 @@ func newSimCluster(n int) *simCluster {
 	c := &simCluster{cat: &catalogue{}, nodes: map[uint64]*simNode{}, dmFail: map[[2]uint64]error{}}
 	for i := 1; i <= n; i++ {
 		id := uint64(i)
-		db, err := badger.Open(badger.DefaultOptions("").WithInMemory(true).WithLogger(nil))
+		db, err := badger.Open(badger.DefaultOptions("").WithInMemory(true).WithLogger(nil).WithMaxTableSize(1 << 20).WithNumMemtables(2))
 		if err != nil {
 			panic(err)
 		}
@@ -180,23 +180,27 @@ func newSimCluster(n int) *simCluster {
 func (c *simCluster) Close() {
 	atomic.AddInt32(&shuttingDown, 1)
 	defer func() {
-		go func() { time.Sleep(200 * time.Millisecond); atomic.AddInt32(&shuttingDown, -1) }()
+		go func() { time.Sleep(300 * time.Millisecond); atomic.AddInt32(&shuttingDown, -1) }()
 	}()
-	for _, n := range c.nodes {
-		for _, ds := range n.node.DatasetManager.VerifDatasets() {
-			for i := 0; i < ds.VerifPartitionCount(); i++ {
-				if r := ds.VerifPartitionAt(i).Raft(); r != nil {
-					func() { defer func() { recover() }(); r.Stop() }()
-				}
-			}
-		}
-	}
-	time.Sleep(20 * time.Millisecond)
+	// 1. no more catalogue entries are applied
 	for _, n := range c.nodes {
 		close(n.group.stopped)
-		n.node.Allocator.Stop()
-		n.db.Close()
 	}
+	time.Sleep(5 * time.Millisecond)
+	// 2. the allocator loops stop loading / unloading partitions
+	for _, n := range c.nodes {
+		func() { defer func() { recover() }(); n.node.Allocator.Stop() }()
+	}
+	time.Sleep(5 * time.Millisecond)
+	// 3. every raft group of every node is stopped (twice: a load may have been in flight)
+	for i := 0; i < 2; i++ {
+		for _, n := range c.nodes {
+			n.node.Transport.VerifStopAllGroups()
+		}
+		time.Sleep(5 * time.Millisecond)
+	}
+	// 4. the in-memory databases are small (1 MiB tables) and are left to the garbage collector:
+	//    closing them while a stopped group's last iteration is still inside Badger crashes the process
 }
 
 // waitFor polls cond up to d.
